@@ -2,9 +2,10 @@
    PARTIAL by nature: thread interleavings, dask graph optimisation and BLAS are runtime behaviour that no Gallina model can
    exhibit.  The theorems say that the SPECIFIED computation (element-wise maps, selection, concatenation, re-chunking)
    does not depend on the partition; that the runtime implements this specification is covered by real runs only. *)
-From Coq Require Import List Arith.
+From Coq Require Import List Arith QArith Permutation.
 Import ListNotations.
-Require Import DTS.Model.Chunks DTS.Proofs.ChunksP.
+Require Import DTS.Model.Chunks DTS.Proofs.ChunksP DTS.Proofs.ReduceP.
+Local Close Scope Q_scope.
 
 (* T48 *)
 Theorem C13_blockwise_evaluation_is_partition_independent {A B} (f : A -> B) s1 s2 (l : list A) :
@@ -25,8 +26,20 @@ Theorem C13_rechunk_preserves_content {A} sizes (blocks : list (list A)) : fold_
   gather (rechunk sizes blocks) = gather blocks.
 Proof. exact (rechunk_preserves sizes blocks). Qed.
 
+(* T50: reductions.  A sum assembled from per-block partial sums is the sum of the whole array for every partition into blocks and every
+   order in which the partial results are combined (flat or as a tree of pairwise combinations, which is what a threaded scheduler
+   builds) - over the rationals; floating point adds only the round-off of re-associated additions *)
+Theorem C13_blocked_reduction_is_partition_and_order_independent sizes (l order : list Q) :
+  fold_right Nat.add 0%nat sizes = length l -> Permutation (map qsum (split_by sizes l)) order -> (qsum order == qsum l)%Q.
+Proof. exact (blocked_sum sizes l order). Qed.
+Theorem C13_tree_reduction_any_shape (t : tree) (l : list Q) : Permutation (concat (leaves t)) l -> (tsum t == qsum l)%Q.
+Proof. exact (tree_sum_any_shape t l). Qed.
+Theorem C13_block_statistics_combine (b1 b2 : list Q) : stat_eq (stat (b1 ++ b2)) (combine3 (stat b1) (stat b2)).
+Proof. exact (stat_app b1 b2). Qed.
+
 Example C13_ex : gather (blockwise S (split_by [2;1;3]%nat [1;2;3;4;5;6]%nat)) = [2;3;4;5;6;7]%nat.
 Proof. reflexivity. Qed.
 
 Print Assumptions C13_blockwise_evaluation_is_partition_independent. Print Assumptions C13_two_axis_chunking.
 Print Assumptions C13_selection_across_blocks. Print Assumptions C13_rechunk_preserves_content.
+Print Assumptions C13_blocked_reduction_is_partition_and_order_independent. Print Assumptions C13_tree_reduction_any_shape. Print Assumptions C13_block_statistics_combine.
